@@ -1264,6 +1264,11 @@ func FoldBinaryOperator(loc logger.Loc, e *EBinary) Expr {
 
 	case BinOpPow:
 		if left, right, ok := extractNumericValues(e.Left, e.Right); ok {
+			// Go's "math.Pow" returns 1 for "1 ** NaN", "1 ** ±Infinity", and
+			// "(-1) ** ±Infinity" but JavaScript's "**" returns NaN in these cases
+			if math.IsNaN(right) || ((left == 1 || left == -1) && math.IsInf(right, 0)) {
+				return Expr{Loc: loc, Data: &ENumber{Value: math.NaN()}}
+			}
 			return Expr{Loc: loc, Data: &ENumber{Value: math.Pow(left, right)}}
 		}
 
